@@ -193,7 +193,8 @@ func c16Check(c c16Config) (sig, detail string) {
 	if err != nil {
 		return "host-cannot-connect", err.Error()
 	}
-	defer host.conn.Close()
+	closeHost := sync.OnceFunc(func() { host.conn.Close() })
+	defer closeHost()
 	isList := func(e protocol.Envelope) bool { return e.Type == protocol.TypePeerList }
 	le, ok := host.wait(3*time.Second, isList)
 	if !ok {
@@ -214,7 +215,8 @@ func c16Check(c c16Config) (sig, detail string) {
 	if err != nil {
 		return "receiver-cannot-connect", err.Error()
 	}
-	defer recv.conn.Close()
+	closeRecv := sync.OnceFunc(func() { recv.conn.Close() })
+	defer closeRecv()
 	je, ok := host.wait(3*time.Second, func(e protocol.Envelope) bool {
 		if e.Type != protocol.TypePeerJoined {
 			return false
@@ -307,6 +309,30 @@ func c16Check(c c16Config) (sig, detail string) {
 				return "message-rate-zero-not-unlimited", fmt.Sprintf("--ws-msgs-per-sec 0 (documented: disabled), burst %d: only %d of %d messages from the host reached the receiver", burst, got, n)
 			}
 			time.Sleep(2 * time.Millisecond)
+		}
+	}
+	// The next host: once this host and its receiver are gone, the server is as it was before
+	// them, and another host can create a session - also when --max-sessions is as small as 1
+	// and sessions never expire by time (--session-timeout 0). Skipped when a per-address
+	// creation rate or burst is configured that a second creation within seconds may legitimately hit.
+	_, burstSet := c.Flags["session-creates-burst"]
+	if r, rateSet := c.Flags["session-creates-per-min"]; r == "0" || (!rateSet && !burstSet) {
+		closeRecv()
+		closeHost()
+		var lastErr error
+		deadline := time.Now().Add(4 * time.Second)
+		for {
+			cctx, ccancel := context.WithTimeout(context.Background(), 3*time.Second)
+			_, code2, _, err := clienthttp.CreateSession(cctx, srv.base, 0)
+			ccancel()
+			if err == nil && len(code2) == 8 {
+				break
+			}
+			lastErr = err
+			if time.Now().After(deadline) {
+				return "next-host-cannot-create-session", fmt.Sprintf("after the first host and its receiver had left, another host could not create a session for 4 s: %v", lastErr)
+			}
+			time.Sleep(100 * time.Millisecond)
 		}
 	}
 	return "", ""
